@@ -313,28 +313,26 @@ GUARD_TY = re.compile(r"(Arc)?MutexGuard<[^>]*\bHeap>")
 
 
 def _heap_guard_held_at(fn, site):
-    """True iff, at call block `site` of fn, a guard of the heap mutex is live on every path: some block that acquires one
-    (SteelThread::enter_safepoint* returning the guard, or lock / lock_arc on a Mutex<Heap>) dominates the site, and no drop /
-    move-away of the guard local (or of a local it was moved into) lies between the acquisition and the site."""
+    """True iff, at call block `site` of fn, a guard of the heap mutex is live on every path: a call whose result is (or is
+    moved into) a local of a heap-guard type — found by the type of the local's drop, so it does not matter whether the guard
+    comes from SteelThread::enter_safepoint*, from lock / lock_arc, or from a helper that returns it — dominates the site, and
+    no drop / mem::drop of the guard lies between the acquisition and the site."""
     dom = fn.dominators()
     if site not in dom:
         return False
+    guards = {b["place"] for b in fn.blocks if b["k"] == "drop" and GUARD_TY.search(b.get("ty") or "")}
+    if not guards:
+        return False
+    src = {g: lib.alias_sources(fn, g) for g in guards}
     for c, b in fn.calls():
         if c == site or c not in dom[site]:
             continue
-        targs = b.get("targs") or []
-        acq = (re.search(r"\{impl SteelThread\}::enter_safepoint(_once)?$", b["callee"]) and targs and GUARD_TY.search(targs[0])) or \
-              (re.search(r"Mutex<R,T>\}::(lock|lock_arc)$|Mutex<T>\}::lock$", b["callee"]) and any(re.search(r"\bHeap$", t) for t in targs))
-        if not acq:
+        alias = {g for g in guards if b["dest"] == g or b["dest"] in src[g]}
+        if not alias:
             continue
-        alias = {b["dest"]}
-        for _ in range(4):
-            for _, _, e in fn.events("mv"):
-                if e[2] in alias and e[1] not in alias and "." not in e[1] and "*" not in e[1]:
-                    alias.add(e[1])
-        after = fn.reachable_from(fn.succ(c))
+        alias.add(b["dest"])
         released = False
-        for i in after:
+        for i in fn.reachable_from(fn.succ(c)):
             blk = fn.blocks[i]
             gone = (blk["k"] == "drop" and blk.get("place") in alias) or \
                    (blk["k"] == "call" and re.search(r"mem::drop$", blk["callee"]) and any(a in alias for a in blk["args"]))
